@@ -893,7 +893,11 @@ func (lb *LoadBalancer) recordRequestMetrics(backend *Backend, statusCode int, s
 	responseTime := time.Since(startTime)
 	success := statusCode < 500
 	lb.metricsCollector.RecordResponse(success, responseTime)
-	lb.metricsCollector.RecordBackendRequest(backend.Name, success, responseTime)
+	// The per-backend numbers are kept by name: a request that ends after its backend was
+	// removed must not be booked to a backend that has been registered under the name since
+	if lb.isRegistered(backend) {
+		lb.metricsCollector.RecordBackendRequest(backend.Name, success, responseTime)
+	}
 
 	// Check if the backend returned an error status code (5xx) and passive health checks are enabled
 	if statusCode >= 500 && lb.healthChecks.passiveEnabled {
